@@ -10,9 +10,9 @@ CONSTANTS ReachLen, SufLen
 VARIABLES phase, suf
 gvars == <<vars, phase, suf>>
 GInit == Init /\ phase = "reach" /\ suf = 0
-GNext == \/ phase = "reach" /\ Len(scn) < ReachLen /\ Next /\ UNCHANGED <<phase, suf>>
+GNext == \/ phase = "reach" /\ Len(scn) < ReachLen /\ NextR /\ UNCHANGED <<phase, suf>>
          \/ phase = "reach" /\ phase' = "suffix" /\ UNCHANGED <<vars, suf>>
-         \/ phase = "suffix" /\ suf < SufLen /\ Next /\ suf' = suf + 1 /\ UNCHANGED phase
+         \/ phase = "suffix" /\ suf < SufLen /\ NextR /\ suf' = suf + 1 /\ UNCHANGED phase
 GSpec == GInit /\ [][GNext]_gvars
 GView == IF phase = "reach" THEN <<core, "r">> ELSE <<core, scn, suf>>
 GExport == (phase = "suffix" /\ suf = SufLen) => PrintT(<<"SCN", ToJson(scn)>>)
